@@ -20,6 +20,7 @@ func init() {
 			runC15(c)
 			runMsgArg(c, "C15-MSGARG")
 			runLiveSettings(c, "C15-LIVE")
+			importRules(c, "C05", runC05InList, "C15-INLIST", "the custom message of an in/include rule is what the parser cut off behind the first '|': the rule function takes its option list from the parsed VALUE, first '(' to last ')' (rule C05-INLIST) — a rule function that cuts the raw rule text again (at the last ')' of the whole item) swallows a message containing ')' into the option list and the clause falls back to the default wording", 3, nil)
 			base(c, "DECLARED", "STATE", "ALIAS", "TEXT", "MAT")
 		},
 	})
